@@ -1344,3 +1344,13 @@ package zygo
 //@ C17 assert fields-set-on-a-new-definition-only @before call SetFields[*]: fresh(arg0)
 //@ writers C17 RegisteredType | UserStructDefn | StructBuilder
 //@ writers C17 RecordDefn | Fields, FieldType | (*RecordDefn).SetFields, NewRecordDefn
+
+// C20: process-wide mutable state. A package-level variable that changes after package
+// initialisation is shared by every interpreter of the process, so what an earlier interpreter
+// did could change what a fresh one computes. The accepted list is what the code has today:
+// the type registry (GoStructRegistry, ListRegisteredTypes: struct declarations are process-wide
+// by design), configuration switches (Verbose, ShellCmd, continuationPrompt), the infix array
+// operator record (arrayOp: rewritten with the same contents by every InitInfixOps), codec helper
+// and debug counters/mutex (msgpHelper, precounts, postcounts, tsPrintfMut). Any other package
+// variable that becomes writable after init is a failed obligation.
+//@ globalstate C20 | GoStructRegistry, ListRegisteredTypes, ShellCmd, Verbose, arrayOp, continuationPrompt, msgpHelper, postcounts, precounts, tsPrintfMut
